@@ -290,11 +290,11 @@ def print_type(t, extend=False):
         head += " implements " + " & ".join(t.interfaces)
     head += _dirs_str(t.dirs)
     if t.kind in ("OBJECT", "INTERFACE"):
-        if not t.fields and extend:
+        if not t.fields:
             return head
         return head + " {\n" + "".join(_desc_str(f.desc, "  ") + "  " + _field_str(f) + "\n" for f in t.fields) + "}"
     if t.kind == "INPUT_OBJECT":
-        if not t.fields and extend:
+        if not t.fields:
             return head
         return head + " {\n" + "".join(_desc_str(f.desc, "  ") + "  " + _arg_str(f) + "\n" for f in t.fields) + "}"
     if t.kind == "UNION":
@@ -302,7 +302,7 @@ def print_type(t, extend=False):
             return head
         return head + " = " + " | ".join(t.members)
     if t.kind == "ENUM":
-        if not t.values and extend:
+        if not t.values:
             return head
         return head + " {\n" + "".join(_desc_str(v.desc, "  ") + "  " + v.name + _dirs_str(v.dirs) + "\n" for v in t.values) + "}"
     return head
